@@ -80,6 +80,10 @@ fn executor() -> &'static Arc<safina::executor::Executor> {
     })
 }
 
+pub fn executor_block_on<F: std::future::Future>(f: F) -> F::Output {
+    futures_lite::future::block_on(f)
+}
+
 /// One server per (small_body_len, cache dir?) configuration, started lazily and kept for the process.
 pub fn server(small: usize, cache: u8) -> Server {
     static SERVERS: OnceLock<Mutex<HashMap<(usize, u8), (SocketAddr, Option<PathBuf>)>>> = OnceLock::new();
